@@ -1,4 +1,246 @@
-/- C08 — model and specification (stub; see HACKING.md) -/
+/-
+  C08 — the object model stays self-consistent over any history of reads and edits.
+
+  MODEL (mirrors the Python; the variant is chosen by `Cfg`):
+    `Shelxfile._reslist`                         `St.res   : List Entry`   (raw string | Atom object | other object)
+    `Atoms.all_atoms`                            `St.atoms : List Nat`     (object identities, list order)
+    instruction objects held by API attributes   `St.cards : List Nat`
+    `str(obj)` / `atom.fullname.upper()`          `St.text`, `St.name`      (texts and names are interned:
+                                                                            equal numbers = equal strings)
+    `Atoms._atomsdict`                           `St.cache`                ([] = "not built", as `if not self._atomsdict`)
+    `Shelxfile.index_of`, `Atom.index`, `Command.index/position`, `FVARs.position`   `indexOf`
+    `Atom.atomid`                                `atomid`     (ValueError -> 0, as the code does)
+    `Atoms.get_atom_by_id`, `get_atom_by_name`   `byId`, `byName`
+    `Atoms.__delitem__` (loop that deletes from the list it iterates over), `Atom.delete`,
+    `add_line`, `Atom.name = …`, element/`to_isotropic`/`Command.set`/`LSCycles.number` (text changes, identity kept),
+    `read_string/read_file/reload` (`self.__init__()` then parse)                     `step`
+
+  `list.index(v)` is evaluated as CPython does: first slot whose item `is v` or `item == v`; `==` between an
+  `Atom` and anything compares the two `__str__` texts (atom.py `__eq__`, also as the reflected operand when the
+  item is a `str` or an object without `__eq__`); between two non-atoms it is identity (no `__eq__` in cards.py).
+    `snapshot` : the code as of the snapshot (search by `==`, rename leaves `_atomsdict` alone)
+    `repaired` : after fixes/C08_1 (identity search in index_of/atomid/__delitem__) and fixes/C08_2 (rename clears the cache)
+
+  SPEC: `Inv8` — stated on the observers only (what a user of the API sees), no reference to how they search.
+  Core Lean only (linked into the driver).
+-/
 namespace Shelx.C08
+
+/-- one slot of `_reslist` -/
+inductive Entry where
+  | raw  (t : Nat)      -- a plain string with text `t`
+  | atom (u : Nat)      -- an `Atom` object with identity `u`
+  | card (u : Nat)      -- any other object (Command, Restraint, SFACTable, FVARs, SYMM)
+deriving DecidableEq, Repr, Inhabited
+
+/-- one line of an input file, as `_parse_cards` classifies it -/
+inductive Line where
+  | raw  (t : Nat)                  -- stays a string (TITL, END, blank, continuation, unknown …)
+  | atom (t : Nat) (name : Nat)     -- becomes an Atom; `t` = its printed line, `name` = NAME_RESINUM upper-cased
+  | card (t : Nat)                  -- becomes an instruction object
+deriving DecidableEq, Repr, Inhabited
+
+structure Cfg where
+  identSearch  : Bool     -- positions are searched by identity (`is`) instead of `==`
+  renameClears : Bool     -- the name setter clears `_atomsdict`
+deriving DecidableEq, Repr
+
+def snapshot : Cfg := { identSearch := false, renameClears := false }
+def repaired : Cfg := { identSearch := true, renameClears := true }
+
+structure St where
+  res   : List Entry
+  atoms : List Nat
+  cards : List Nat
+  text  : Nat → Nat
+  name  : Nat → Nat
+  cache : List (Nat × Nat)      -- (name, atom) in insertion order; later entries win (dict semantics)
+  gone  : List Nat              -- ghost: atoms removed from `all_atoms` since the last read (never read by the model)
+
+def init : St := { res := [], atoms := [], cards := [], text := fun _ => 0, name := fun _ => 0, cache := [], gone := [] }
+
+/-! ### model: positions -/
+
+def Entry.isAtom : Entry → Bool
+  | .atom _ => true
+  | _ => false
+
+def textOf (s : St) : Entry → Nat
+  | .raw t => t
+  | .atom u => s.text u
+  | .card u => s.text u
+
+/-- `item is value or item == value` inside `list.index(value)` -/
+def pyEq (c : Cfg) (s : St) (value item : Entry) : Bool :=
+  item == value || (!c.identSearch && (item.isAtom || value.isAtom) && textOf s item == textOf s value)
+
+def firstIdx (p : Entry → Bool) : List Entry → Option Nat
+  | [] => none
+  | x :: xs => if p x then some 0 else (firstIdx p xs).map (· + 1)
+
+/-- `shx.index_of(v)`; `none` = ValueError -/
+def indexOf (c : Cfg) (s : St) (v : Entry) : Option Nat := firstIdx (pyEq c s v) s.res
+
+/-- `Atom.atomid` -/
+def atomid (c : Cfg) (s : St) (u : Nat) : Nat :=
+  match indexOf c s (.atom u) with
+  | some i => i
+  | none => 0          -- `except ValueError: return 0`
+
+/-- `Atoms.get_atom_by_id` -/
+def byId (c : Cfg) (s : St) (k : Nat) : Option Nat := s.atoms.find? fun a => atomid c s a == k
+
+/-! ### model: the name index -/
+
+def build (s : St) : List (Nat × Nat) := s.atoms.map fun a => (s.name a, a)
+
+/-- `Atoms.atomsdict`: rebuilt when empty -/
+def effCache (s : St) : List (Nat × Nat) := if s.cache.isEmpty then build s else s.cache
+
+def dictGet (n : Nat) : List (Nat × Nat) → Option Nat
+  | [] => none
+  | (k, v) :: r =>
+    match dictGet n r with
+    | some w => some w
+    | none => if k == n then some v else none
+
+/-- `Atoms.get_atom_by_name` (on the upper-cased NAME_RESINUM) -/
+def byName (s : St) (n : Nat) : Option Nat := dictGet n (effCache s)
+
+/-- the state after any call that went through `atomsdict` -/
+def warm (s : St) : St := { s with cache := effCache s }
+
+/-! ### model: edits -/
+
+/-- `list.insert(i, x)` (an index beyond the end appends) -/
+def pyInsert : List Entry → Nat → Entry → List Entry
+  | l, 0, x => x :: l
+  | [], _ + 1, x => [x]
+  | y :: ys, i + 1, x => y :: pyInsert ys i x
+
+/-- body of the `if key == at.atomid:` branch of `__delitem__`; the Bool says "ValueError raised" -/
+def removeAt (c : Cfg) (s : St) (n a : Nat) : St × Bool :=
+  let s1 := { s with atoms := s.atoms.eraseIdx n, gone := a :: s.gone }      -- del self.all_atoms[n]
+  match indexOf c s (.atom a) with                                            -- self.shx._reslist.index(at)
+  | some i => ({ s1 with res := s.res.eraseIdx i, cache := [] }, false)
+  | none => (s1, true)
+
+/-- `for n, at in enumerate(self.all_atoms)` over the list that is being shortened; `fuel` ≥ remaining length -/
+def delLoop (c : Cfg) (key : Nat) : Nat → Nat → St → St × Bool
+  | 0, _, s => (s, false)
+  | fuel + 1, n, s =>
+    match s.atoms[n]? with
+    | none => (s, false)
+    | some a =>
+      if atomid c s a == key then
+        match removeAt c s n a with
+        | (s', true) => (s', true)
+        | (s', false) => delLoop c key fuel (n + 1) s'
+      else delLoop c key fuel (n + 1) s
+
+/-- `del shx.atoms[key]` -/
+def delItem (c : Cfg) (key : Nat) (s : St) : St × Bool := delLoop c key (s.atoms.length + 1) 0 s
+
+inductive Op where
+  | delId (k : Nat)                         -- del shx.atoms[k]
+  | delete (a : Nat)                        -- a.delete()  for an atom object the caller holds
+  | insertAfter (pos : Nat) (t : Nat)       -- shx.add_line(pos, text)
+  | rename (a : Nat) (name text : Nat)      -- a.name = …   (changes the printed line too)
+  | retext (u : Nat) (text : Nat)           -- element / to_isotropic / Command.set / cycles.number: same object, new text
+  | lookup                                  -- any call that goes through `atomsdict`
+  | read (f : List Line)                    -- read_string / read_file / reload
+deriving Repr, Inhabited
+
+def resOf : Nat → List Line → List Entry
+  | _, [] => []
+  | i, .raw t :: ls => .raw t :: resOf (i + 1) ls
+  | i, .atom _ _ :: ls => .atom i :: resOf (i + 1) ls
+  | i, .card _ :: ls => .card i :: resOf (i + 1) ls
+
+def atomsOf : Nat → List Line → List Nat
+  | _, [] => []
+  | i, .atom _ _ :: ls => i :: atomsOf (i + 1) ls
+  | i, _ :: ls => atomsOf (i + 1) ls
+
+def cardsOf : Nat → List Line → List Nat
+  | _, [] => []
+  | i, .card _ :: ls => i :: cardsOf (i + 1) ls
+  | i, _ :: ls => cardsOf (i + 1) ls
+
+def textAt (f : List Line) (u : Nat) : Nat :=
+  match f[u]? with
+  | some (.raw t) => t
+  | some (.atom t _) => t
+  | some (.card t) => t
+  | none => 0
+
+def nameAt (f : List Line) (u : Nat) : Nat :=
+  match f[u]? with
+  | some (.atom _ n) => n
+  | _ => 0
+
+/-- `self.__init__(…)`: the constructor assigns every field again -/
+def reinit (s : St) : St :=
+  { s with res := [], atoms := [], cards := [], text := fun _ => 0, name := fun _ => 0, cache := [], gone := [] }
+
+/-- `_parse_cards`: objects are created per line (identity = line number) and stored in their slot and list -/
+def load (f : List Line) (s : St) : St :=
+  { s with res := resOf 0 f, atoms := atomsOf 0 f, cards := cardsOf 0 f, text := textAt f, name := nameAt f }
+
+def read (f : List Line) (s : St) : St := load f (reinit s)
+
+/-- one API call; the Bool says that it raised (the state is what the exception left behind) -/
+def step (c : Cfg) (op : Op) (s : St) : St × Bool :=
+  match op with
+  | .delId k => delItem c k s
+  | .delete a =>
+    match indexOf c s (.atom a) with
+    | none => (s, true)                                        -- `self.index` raises ValueError
+    | some k =>
+      match delItem c k s with
+      | (s', true) => (s', true)
+      | (s', false) => ({ s' with cache := [] }, false)
+  | .insertAfter pos t => ({ s with res := pyInsert s.res (pos + 1) (.raw t) }, false)
+  | .rename a n t =>
+    ({ s with name := fun u => if u = a then n else s.name u,
+              text := fun u => if u = a then t else s.text u,
+              cache := if c.renameClears then [] else s.cache }, false)
+  | .retext u t => ({ s with text := fun v => if v = u then t else s.text v }, false)
+  | .lookup => (warm s, false)
+  | .read f => (read f s, false)
+
+def run (c : Cfg) : List Op → St → St
+  | [], s => s
+  | op :: ops, s => run c ops (step c op s).1
+
+/-! ### spec -/
+
+/-- the object reports a position, and the file holds that very object there -/
+def holdsAt (c : Cfg) (s : St) (e : Entry) : Prop :=
+  (indexOf c s e).bind (fun i => s.res[i]?) = some e
+
+/-- the property, after any step -/
+def Inv8 (c : Cfg) (s : St) : Prop :=
+  (∀ a ∈ s.atoms, holdsAt c s (.atom a)) ∧
+  (∀ k ∈ s.cards, holdsAt c s (.card k)) ∧
+  (s.atoms.Nodup ∧ ∀ a ∈ s.atoms, ∀ b ∈ s.atoms, atomid c s a = atomid c s b → a = b) ∧
+  (∀ a ∈ s.atoms, byId c s (atomid c s a) = some a) ∧
+  (∀ a ∈ s.atoms, (∀ b ∈ s.atoms, s.name b = s.name a → b = a) → byName s (s.name a) = some a) ∧
+  (∀ g ∈ s.gone, g ∉ s.atoms ∧ Entry.atom g ∉ s.res ∧ g ∉ (effCache s).map (·.2))
+
+instance (c : Cfg) (s : St) (e : Entry) : Decidable (holdsAt c s e) := by unfold holdsAt; infer_instance
+instance (c : Cfg) (s : St) : Decidable (Inv8 c s) := by unfold Inv8; infer_instance
+
+/-- the clauses one by one (for the driver's report) -/
+def clauses (c : Cfg) (s : St) : List Bool :=
+  [ decide (∀ a ∈ s.atoms, holdsAt c s (.atom a)),
+    decide (∀ k ∈ s.cards, holdsAt c s (.card k)),
+    decide (s.atoms.Nodup ∧ ∀ a ∈ s.atoms, ∀ b ∈ s.atoms, atomid c s a = atomid c s b → a = b),
+    decide (∀ a ∈ s.atoms, byId c s (atomid c s a) = some a),
+    decide (∀ a ∈ s.atoms, (∀ b ∈ s.atoms, s.name b = s.name a → b = a) → byName s (s.name a) = some a),
+    decide (∀ g ∈ s.gone, g ∉ s.atoms ∧ Entry.atom g ∉ s.res ∧ g ∉ (effCache s).map (·.2)) ]
+
+/-- the views that are filters of `all_atoms` (hydrogen_atoms, riding_atoms, q_peaks) -/
+def view (p : Nat → Bool) (s : St) : List Nat := s.atoms.filter p
 
 end Shelx.C08
